@@ -117,7 +117,7 @@ func runPushScenario(c *rig.Ctx, t *tally, idx int) {
 	rig.Must(os.MkdirAll(s.remoteDir, 0o755))
 	s.src, s.rep = newProc(s.base, "src"), newProc(s.base, "rep")
 	rig.Must(os.WriteFile(s.src.Cfg, []byte(plainYAML(s.src, map[string]string{
-		"dolt_replicate_to_remote":              "origin",
+		"dolt_replicate_to_remote":             "origin",
 		"dolt_replication_remote_url_template": "file://" + filepath.Join(s.base, "remotes") + "/{database}"})), 0o644))
 	rig.Must(os.WriteFile(s.rep.Cfg, []byte(plainYAML(s.rep, nil)), 0o644))
 	if err := s.src.start(); err != nil {
